@@ -391,18 +391,16 @@ KeyBlockPos(u, i, lblk, acc) ==
 
 \* the position at which the writer appends is the end of the file as its reader walks it (a reopened channel too):
 \* data block and key block of the next save lie behind every block the file holds, and never on top of each other
-FileEnd(u) == IF u.exists /\ u.hdr.tdb >= 1 /\ u.hdr.fsbs >= 1
-              THEN LET rk == ReadKeys(u, {})
-                       ends == {rk.keys[i].fileblk + CeilDiv(rk.keys[i].size, u.hdr.tdb) : i \in 1..Len(rk.keys)}
-                               \cup {p + 1 : p \in {KeyBlockPos(u, 0, 2, <<>>)[i] : i \in 1..Len(KeyBlockPos(u, 0, 2, <<>>))}}
-                               \cup {2}
-                   IN CHOOSE m \in ends : \A x \in ends : x <= m
-              ELSE 2
-AppendPos == ch.open /\ ch.tdbw = 1 /\ uf.exists /\ uf.hdr.tdb >= 1 /\ uf.hdr.fsbs >= 1 /\ ReadKeys(uf, {}).ok =>
-               /\ ch.ublk >= FileEnd(uf)
-               /\ ch.kblk < ch.ublk
-               /\ (ch.kib > 0 => ch.kblk \in {KeyBlockPos(uf, 0, 2, <<>>)[i] : i \in 1..Len(KeyBlockPos(uf, 0, 2, <<>>))})
-               /\ (ch.kib = 0 /\ ch.nkeys > 0 => ch.kblk >= FileEnd(uf))
+AppendPos == ch.open /\ ch.tdbw = 1 /\ uf.exists /\ uf.hdr.tdb >= 1 /\ uf.hdr.fsbs >= 1 =>
+               LET rk  == ReadKeys(uf, {})
+                   kp  == KeyBlockPos(uf, 0, 2, <<>>)
+                   kps == {kp[i] : i \in 1..Len(kp)}
+                   ends == {rk.keys[i].fileblk + CeilDiv(rk.keys[i].size, uf.hdr.tdb) : i \in 1..Len(rk.keys)} \cup {p + 1 : p \in kps} \cup {2}
+                   fileend == CHOOSE m \in ends : \A x \in ends : x <= m
+               IN rk.ok => /\ ch.ublk >= fileend
+                           /\ ch.kblk < ch.ublk
+                           /\ (ch.kib > 0 => ch.kblk \in kps)
+                           /\ (ch.kib = 0 /\ ch.nkeys > 0 => ch.kblk >= fileend)
 
 TypeOK == /\ len \in N..MaxLen /\ nops \in 0..MaxOps /\ nruns \in 0..MaxRuns
           /\ (DevReopenFull \/ ch.kib <= (IF ch.tdb >= 1 THEN Kpb(ch.tdb) ELSE 0))
